@@ -2,6 +2,7 @@
 scheduler, driven by seeded random schedules with fault injection, with end-to-end monitors; executions are
 recorded at scheduler-step granularity for TLC trace validation (spec/Assoc.tla)."""
 import json
+import os
 import random
 
 from engine import vsched
@@ -196,6 +197,122 @@ def run_send(seed, nthreads, per_thread, plan_kind, inbound, send_buffer, big=Fa
         if isinstance(end, str) and end.startswith(("deadlock", "Step")):
             problems.append(end)
         return ("; ".join(problems) if problems else None), {"end": end, "sent": len(sent), "expected": total, "frames": len(frames)}
+    finally:
+        sc.close_scenario()
+
+
+SEND_PREEMPT = {"opcode": (), "line": ("_run", "write", "_write", "read", "_read", "_absorb_attached_stream", "_set_selector_events_mask",
+                                       "_has_pending_stream", "send_message_from_queue", "put_message_into_send_queue")}
+
+
+def run_send_sweep(kind, k, variant="plain", seed=1):
+    """One-preemption sweep over the outbound hand-off.  kind 'transport/psm': the transport thread is stopped after k
+    line-level steps of its event handling while the state machine thread hands over the next batch; 'psm/transport':
+    the state machine thread is stopped inside its sending tick while the transport thread handles its events.
+    variant: plain | inbound (peer data arrives, a READ event is pending) | partial (first write accepts 20 bytes)."""
+    sc = Scenario("client", seed * 3, preempt=SEND_PREEMPT)
+    try:
+        if not sc.open():
+            return "connection did not open", {"ended": True}
+        n, s = sc.n, sc.s
+        a = n.assoc
+        tr = [t for t in s.threads if t.name == "transport_layer_thread"][-1]
+        psm = n.psm_thread
+        m1, m2 = app_request(1, 40), app_request(2, 7)
+        want = m1.dump() + m2.dump()
+
+        def solo(ts, cond, limit=6000):
+            for _ in range(limit):
+                if cond():
+                    return True
+                go = [t for t in ts if s.enabled(t) == "go"]
+                if not go:
+                    return cond()
+                s.step(go[0])
+            return cond()
+
+        def attached():
+            try:
+                return a.transport.selector.get_key(n.sock).data is not None
+            except (KeyError, ValueError):
+                return False
+        # start from a quiet connection: the transport thread parked in select() with nothing ready
+        wk = [t for t in s.threads if t.name == "recv_message_monitor"][-1]
+        for _ in range(3000):
+            if tr.pending is not None and tr.pending[0] == "select" and s.enabled(tr) != "go" and n.at_ticker(psm):
+                break
+            go = [t for t in (tr, wk, psm) if s.enabled(t) == "go"]
+            if not go:
+                break
+            s.step(go[0] if go[0] is not psm or len(go) == 1 else go[1] if go[1] is not psm else go[0])
+        if variant == "partial" or kind == "transport/feed":
+            n.sock.write_plan = [20] if kind != "transport/feed" else [20, 30, 9]
+        if kind == "transport/feed":
+            want = m1.dump()
+        s1 = s.spawn("sender1", lambda: n.d.send_message(m1))
+        solo([s1], lambda: s1.done)
+        ended = False
+        if kind == "transport/feed":
+            # one message, partial writes; the peer's data arrives after k steps of the transport thread
+            solo([psm], lambda: attached() and n.at_ticker(psm))
+            v, others = tr, []
+            vend = lambda i: i > 0 and tr.pending is not None and tr.pending[0] == "select" and len(n.sock.sent) >= len(want)
+            ocond = lambda: True
+        elif kind == "transport/psm":
+            solo([psm], lambda: attached() and n.at_ticker(psm))
+            s2 = s.spawn("sender2", lambda: n.d.send_message(m2))
+            solo([s2], lambda: s2.done)
+            if variant == "inbound":
+                n.feed(n.make("ANS", True, 1).dump())
+            v, others = tr, [psm]
+            vend = lambda i: i > 0 and tr.pending is not None and tr.pending[0] == "select" and not len(n.sock.sent) < len(m1.dump())
+            ocond = lambda: not a._send_messages.items and n.at_ticker(psm)
+        else:
+            if variant == "inbound":
+                n.feed(n.make("ANS", True, 1).dump())
+            elif variant == "partial":
+                pass
+            v, others = psm, [tr]
+            vend = lambda i: i > 0 and not a._send_messages.items and n.at_ticker(psm)
+            ocond = lambda: tr.pending is not None and tr.pending[0] == "select" and s.enabled(tr) != "go"
+        for i in range(k):
+            if v.done or s.enabled(v) != "go" or vend(i):
+                ended = True
+                if os.environ.get("VERIF_DEBUG"):
+                    print("sweep ended at", i, v.name, v.pending[:1] + (getattr(v.pending[1], "vname", None), v.pending[2]), s.enabled(v), len(n.sock.sent), n.sock.write_plan)
+                break
+            s.step(v)
+        if kind == "transport/feed":
+            n.feed(n.make("ANS", True, 1).dump())
+        solo(others, ocond, limit=3000)
+        solo([v], lambda: v.done or (v.pending is not None and v.pending[0] in ("select",) and s.enabled(v) != "go") or (v is psm and n.at_ticker(psm) and not a._send_messages.items), limit=3000)
+        if kind == "psm/transport":
+            s2 = s.spawn("sender2", lambda: n.d.send_message(m2))
+        stalled = None
+        try:
+            # first without firing any long timer: everything submitted must reach the socket on its own
+            if not sc.run(until=lambda: len(n.sock.sent) >= len(want), limit=30000, timers=False):
+                stalled = len(n.sock.sent)
+            sc.run(until=lambda: len(n.sock.sent) >= len(want), limit=30000)
+            end = sc.settle(limit=6000)
+        except vsched.Deadlock as e:
+            end = "deadlock: " + str(e)
+        except (vsched.StepLimit, vsched.StepHang) as e:
+            end = type(e).__name__ + ": " + str(e)
+        sent = bytes(n.sock.sent)
+        problems = []
+        if n.dead_threads():
+            problems.append(f"threads died: {n.dead_threads()}")
+        frames, rest = split_frames(sent)
+        mine = [f for f in frames if not (len(f) >= 8 and int.from_bytes(f[5:8], "big") in (257, 280, 282))]      # base-protocol frames aside
+        expect = [m1.dump()] if kind == "transport/feed" else [m1.dump(), m2.dump()]
+        if rest or mine != expect:
+            problems.append(f"{len(sent)} bytes written for {len(want)} submitted: {len(frames)} whole frame(s), {len(rest)} trailing bytes; "
+                            f"m1 x{frames.count(m1.dump())}, m2 x{frames.count(m2.dump())}")
+        elif stalled is not None:
+            problems.append(f"only {stalled} of {len(want)} submitted bytes were written when every thread had gone idle; the rest left the node only "
+                            "after a timer (watchdog) caused another write")
+        return ("; ".join(problems) if problems else None), {"ended": ended, "end": end}
     finally:
         sc.close_scenario()
 
@@ -419,10 +536,12 @@ def run_recv_sweep(kind, k, seed=1):
 
 # ------------------------------------------------------------------------------------------- C08
 
-def run_life(seed, role, cause, point, blocked_consumer, restart=True):
+def run_life(seed, role, cause, point, blocked_consumer, restart=True, hook=None):
     rng = random.Random(seed)
     sc = Scenario(role, seed)
     n = sc.n
+    if hook:
+        hook(sc)
     try:
         problems = []
         consumer_result = []
@@ -438,7 +557,7 @@ def run_life(seed, role, cause, point, blocked_consumer, restart=True):
                     sc.run(until=lambda: n.state() == "WaitICEA" and sc.complete_messages(n.sock.sent) >= 1, limit=4000)
         cons = None
         if blocked_consumer and n.assoc is not None:
-            cons = sc.s.spawn("consumer", lambda: consumer_result.append(n.d.get_message()))
+            cons = sc.s.spawn("consumer1", lambda: consumer_result.append(n.d.get_message()))
             sc.run(until=lambda: cons.pending is not None and cons.pending[0] == "wait", limit=3000)
         if point == "open-inbound":
             n.feed(n.make("REQ", True, 1).dump() + n.make("REQ", True, 2).dump())
@@ -476,6 +595,8 @@ def run_life(seed, role, cause, point, blocked_consumer, restart=True):
                     n.feed(dpa.dump())
         elif cause == "eof":
             n.peer_close()
+        elif cause == "rst":
+            n.peer_reset()
         elif cause == "refused":
             pass
         try:
